@@ -77,19 +77,57 @@ Section C08.
 End C08.
 
 (* insert_nested / insert_cfg / insert_conditional / insert_tail_loop (model insert_wrapped: insert_hugr under the
-   builder's parent node, one add_link per wire, _update_port_count with the counts of the operation's signature):
-   the call returns normally with the mapping of the plain insertion, adds exactly one link per wire into the image
-   of the root at offsets 0, 1, ..., and leaves operation, parent, ordered children and metadata of every node as
-   the plain insertion made them (only port counts may be re-declared).  Wires are sibling outputs (live nodes of A). *)
+   builder's parent node, then per wire _wire_up_port = _ancestral_sibling, add_state_order for a wire from an enclosing
+   region, add_link; then _update_port_count with the counts of the operation's signature).  Inside the guard
+   wires_guard of spec/InsertS.v (every wire's source is a child of p or of a proper ancestor of p that has an
+   ancestor-or-self of p among its children, offsets >= -1): the call returns normally with the mapping of the plain
+   insertion and adds exactly wires_extra (spec/InsertS.v, computed on A as it was before the call): one link per
+   wire into the image of the root at offsets 0, 1, ..., and for the wires from enclosing regions the state order
+   link from the wire's source to the ancestor of the inserted root that is the source's sibling -- once however many
+   wires ask for it, and not at all when A already had it.  In particular no wire ends anywhere but in the image of
+   the root and no link of A' (hence of A, or of the copy of B) is touched.  Operation, parent, ordered children and
+   metadata of every node stay as the plain insertion made them (only port counts may be re-declared). *)
 Theorem C08_insert_wrappers_attach_wires : forall {Op Meta : Type} (A B : hugr Op Meta) (p : nid) (ws : list port) ki ko,
+  Inv A -> Inv B -> WF B -> get_node A p <> None -> wires_guard (abs A) p ws = true ->
+  exists A' A'' m r',
+    insert_hugr A B (Some p) = (A', m, Ok) /\ IsoFrame A B p m A' /\ dget Nat.eqb m (root B) = Some r' /\
+    insert_wrapped A B p ws ki ko = (A'', m, Ok) /\ root A'' = root A /\
+    Permutation (q_links A'') (q_links A' ++ wires_extra (abs A) p r' ws) /\
+    forall x, option_map shape4 (get_node A'' x) = option_map shape4 (get_node A' x).
+Proof. intros Op Meta. exact insert_wrappers_attach_wires. Qed.
+
+(* the special case of wires that are outputs of siblings of the inserted root: one link per wire and nothing else *)
+Theorem C08_insert_wrappers_attach_sibling_wires :
+  forall {Op Meta : Type} (A B : hugr Op Meta) (p : nid) (ws : list port) ki ko,
   Inv A -> Inv B -> WF B -> get_node A p <> None ->
-  (forall w, In w ws -> get_node A (fst w) <> None /\ (-1 <= snd w)%Z) ->
+  (forall w, In w ws -> (exists d, get_node A (fst w) = Some d /\ nd_parent d = Some p) /\ (-1 <= snd w)%Z) ->
   exists A' A'' m r',
     insert_hugr A B (Some p) = (A', m, Ok) /\ IsoFrame A B p m A' /\ dget Nat.eqb m (root B) = Some r' /\
     insert_wrapped A B p ws ki ko = (A'', m, Ok) /\ root A'' = root A /\
     Permutation (q_links A'') (q_links A' ++ wire_links r' 0 ws) /\
     forall x, option_map shape4 (get_node A'' x) = option_map shape4 (get_node A' x).
-Proof. intros Op Meta. exact insert_wrappers_attach_wires. Qed.
+Proof. intros Op Meta. exact insert_wrappers_attach_sibling_wires. Qed.
+
+(* non-vacuity of the guard for wires from enclosing regions: A = root 0 with children 1 (a source) and 2 (a container),
+   and 3 inside 2; B a single node.  The wrapper is called on the builder of region 3 with the wire 1.out(0) given
+   twice: the image of B's root is node 4 under 3, the wires end in it at offsets 0 and 1, and ONE order link 1 -> 2
+   is added; when A already has that link none is added. *)
+Definition exA : hugr nat nat :=
+  run (init 0 0) (map (@Basic nat nat) [AddNode 1 None None 0; AddNode 2 None None 0; AddNode 3 (Some 2) None 0]).
+Example C08_wrapper_guard_satisfiable_by_nonlocal_wires :
+  wires_guard (abs exA) 3 [(1, 0%Z); (1, 0%Z)] = true /\
+  wires_extra (abs exA) 3 4 [(1, 0%Z); (1, 0%Z)] =
+    [((1, 0%Z), (4, 0%Z)); ((1, 0%Z), (4, 1%Z)); ((1, (-1)%Z), (2, (-1)%Z))] /\
+  (let '(A'', m, r) := insert_wrapped exA (init 5 0) 3 [(1, 0%Z); (1, 0%Z)] None None in
+   r = Ok /\ m = [(0, 4)] /\
+   q_links A'' = [((1, (-1)%Z), (2, (-1)%Z)); ((1, 0%Z), (4, 0%Z)); ((1, 0%Z), (4, 1%Z))]) /\
+  (let A1 := fst (add_order_link exA 1 2) in
+   wires_extra (abs A1) 3 4 [(1, 0%Z)] = [((1, 0%Z), (4, 0%Z))] /\
+   q_links (fst (fst (insert_wrapped A1 (init 5 0) 3 [(1, 0%Z)] None None))) =
+     [((1, (-1)%Z), (2, (-1)%Z)); ((1, 0%Z), (4, 0%Z))]) /\
+  (* a source inside a sibling region (node 3 for a call under 1) is outside the guard: NoSiblingAncestor *)
+  wires_guard (abs exA) 1 [(3, 0%Z)] = false /\ snd (insert_wrapped exA (init 5 0) 1 [(3, 0%Z)] None None) = EOther.
+Proof. vm_compute. repeat split; reflexivity. Qed.
 
 (* non-vacuity: a source whose child sits below its parent in index order after index reuse (the D20 trigger),
    with a multi-linked port and an order link, is inside the hypotheses, and insert_hugr maps it *)
@@ -118,6 +156,7 @@ Print Assumptions C08_insert_linked_ports_in_frame.
 Print Assumptions C08_model_satisfies_the_monitored_spec.
 Print Assumptions C08_insert_refines_the_sequential_spec.
 Print Assumptions C08_insert_wrappers_attach_wires.
+Print Assumptions C08_insert_wrappers_attach_sibling_wires.
 Print Assumptions C08_insert_keeps_wf.
 Print Assumptions C08_sources_satisfy_the_hypotheses.
 Print Assumptions C08_step_inside_guard_returns.
